@@ -288,10 +288,10 @@ Proof.
   apply IHfuel in H. congruence.
 Qed.
 
-Lemma receive_stream_data_no_exn : forall fx O c sid d fin k,
-  c16_fixed fx -> qpack_contract c O -> receive_stream_data fx O c sid d fin <> SExn k.
+Lemma receive_stream_data0_no_exn : forall fx O c sid d fin k,
+  c16_fixed fx -> qpack_contract c O -> receive_stream_data0 fx O c sid d fin <> SExn k.
 Proof.
-  intros fx O c sid d fin k (Hm & Hs & Hp) Hq. unfold receive_stream_data.
+  intros fx O c sid d fin k (Hm & Hs & Hp) Hq. unfold receive_stream_data0.
   pose proof (get_or_create_keeps c sid) as Hk.
   destruct (get_or_create c sid) as [s0 c1] eqn:Hg. cbn [snd] in Hk.
   destruct (is_uni sid).
@@ -309,11 +309,41 @@ Proof.
     apply rq_recv_no_exn in Hr; [contradiction|assumption].
 Qed.
 
+Lemma receive_stream_data_no_exn : forall fx O c sid d fin k,
+  c16_fixed fx -> qpack_contract c O -> receive_stream_data fx O c sid d fin <> SExn k.
+Proof.
+  intros fx O c sid d fin k Hf Hq. unfold receive_stream_data.
+  destruct (receive_stream_data0 fx O c sid d fin) eqn:Hr; try discriminate.
+  apply receive_stream_data0_no_exn in Hr; [contradiction|assumption|assumption].
+Qed.
+
+(* the exit of the context manager never drops a stream that waits for the encoder stream: the KeyError of the
+   resume loop needs a stream that is blocked AND absent from _stream *)
+Lemma remove_other : forall l sid x, x <> sid -> has_stream l x -> has_stream (remove_stream sid l) x.
+Proof.
+  unfold has_stream. induction l as [|a l IH]; intros sid x Hne H; cbn in *; [congruence|].
+  destruct (s_id a =? sid) eqn:E.
+  - destruct (s_id a =? x) eqn:E2; [lia|assumption].
+  - cbn. destruct (s_id a =? x); [discriminate|]. apply IH; assumption.
+Qed.
+
+Lemma pop_keeps_blocked : forall c sid x s,
+  find_stream x (c_streams c) = Some s -> s_blocked s = true -> has_stream (c_streams (pop_if_ended c sid)) x.
+Proof.
+  intros c sid x s Hf Hb. unfold pop_if_ended.
+  destruct (find_stream sid (c_streams c)) as [s'|] eqn:Hs; [|unfold has_stream; congruence].
+  destruct (is_ended c s') eqn:He; [|unfold has_stream; congruence].
+  cbn. destruct (Z.eq_dec x sid) as [->|Hne].
+  - rewrite Hf in Hs. inversion Hs; subst. unfold is_ended in He. rewrite Hb in He.
+    rewrite andb_false_r in He. discriminate.
+  - apply remove_other; [assumption|]. unfold has_stream. congruence.
+Qed.
+
 Lemma handle_event_no_raise : forall fx O c ev k,
   c16_fixed fx -> qpack_contract c O -> fst (handle_event fx O c ev) <> Raised k.
 Proof.
-  intros fx O c ev k Hf Hq. unfold handle_event. destruct (c_done c); [discriminate|].
-  destruct ev as [sid d fin|d|]; cbn.
+  intros fx O c ev k Hf Hq. unfold handle_event.
+  destruct ev as [sid d fin|d| |sid]; try (cbn; discriminate); (destruct (c_done c); [discriminate|]); cbn.
   - destruct (receive_stream_data fx O c sid d fin) eqn:Hr; cbn; try discriminate.
     apply receive_stream_data_no_exn in Hr; [contradiction|assumption|assumption].
   - unfold receive_datagram. destruct (pull_uint_var d) as [[q r]|]; discriminate.
